@@ -297,7 +297,7 @@ func init() { register("C05", checkC05) }
 
 func TestC05(t *testing.T) {
 	runProp(t, "C05", checkC05, nil,
-		part[c05Case]{"regex-grammar", scale(4000, 40000), genC05Regex},
-		part[c05Case]{"mask-patterns", scale(2000, 20000), genC05Mask},
-		part[c05Case]{"bundled-regex-rules", scale(400, 3000), genC05Bundled})
+		part[c05Case]{"regex-grammar", scale(10000, 40000), genC05Regex},
+		part[c05Case]{"mask-patterns", scale(5000, 20000), genC05Mask},
+		part[c05Case]{"bundled-regex-rules", scale(1000, 4000), genC05Bundled})
 }
